@@ -110,29 +110,7 @@ func C15(p *ir.Program, r *report.R) {
 	{
 		up := p.Func("mempool", "Mempool.Update")
 		c.Order(memT+"Update", up, "mempool.Mempool.filterTxs", "mempool.Mempool.recheckTxs", "mempool.Mempool.promoteExecutables")
-		// The caller (CommitBlock) has just replaced the shared check state and cleared the key-image
-		// set: the pending transactions must be re-applied to it after EVERY block, also an empty one.
-		c.MustPass(memT+"Update", "recheck-on-every-path/recheckTxs", ir.Entry(up), ir.IsReturn, ir.CallMatcher("mempool.Mempool.recheckTxs"), nil, "every path through Update re-checks the offered account transactions")
-		for _, rc := range []struct{ call, size string }{{"mempool.Mempool.recheckSpecTxs", "mempool.Mempool.SpecGoodTxsSize(mem)"}, {"mempool.Mempool.recheckUtxoTxs", "mempool.Mempool.UTXOTxsSize(mem)"}} {
-			okAll := true
-			why := ""
-			for _, rt := range ir.Returns(up) {
-				found, _, tr := ir.FindPath(ir.PathQuery{From: ir.Entry(up), Target: func(in ssa.Instruction) bool { return in == ssa.Instruction(rt.Instr) }, Avoid: ir.CallMatcher(rc.call),
-					AvoidEdge: func(atoms []string) bool {
-						for _, a := range atoms {
-							if a == "le("+rc.size+",0)" || a == "eq("+rc.size+",0)" {
-								return true
-							}
-						}
-						return false
-					}})
-				if found {
-					okAll = false
-					why = fmt.Sprintf("return at %s reachable without it although the list may be non-empty, blocks %v", p.InstrPos(rt.Instr), tr)
-				}
-			}
-			r.Check("K2", memT+"Update/recheck-on-every-path/"+strings.TrimPrefix(rc.call, "mempool.Mempool."), p.Pos(up.Pos()), okAll, "skipped only when the list is empty: "+why)
-		}
+		mempoolRecheckRules(c)
 		for _, g := range []string{"mempool.Mempool.recheckSpecTxs", "mempool.Mempool.recheckUtxoTxs"} {
 			a, b, cc := firstCall(up, "mempool.Mempool.filterTxs"), firstCall(up, g), firstCall(up, "mempool.Mempool.promoteExecutables")
 			r.Check("K2", memT+"Update/order/filterTxs ≺ "+strings.TrimPrefix(g, "mempool.Mempool.")+" ≺ promoteExecutables", p.Pos(up.Pos()), a != nil && b != nil && cc != nil && notBefore(b, a) && notBefore(cc, b), "rechecks run after committed transactions were filtered and before promotion")
@@ -457,4 +435,35 @@ func sameParams(a, b *types.Signature) bool {
 		}
 	}
 	return true
+}
+
+// mempoolRecheckRules: CommitBlock replaces the shared check state and clears the mempool's
+// key-image set; Update must re-apply the pending transactions to them after EVERY block, also an
+// empty one (shared by C07: the key-image set of pending transactions, and C15).
+func mempoolRecheckRules(c C) {
+	p, r := c.P, c.R
+	up := p.Func("mempool", "Mempool.Update")
+	// The caller (CommitBlock) has just replaced the shared check state and cleared the key-image
+	// set: the pending transactions must be re-applied to it after EVERY block, also an empty one.
+	c.MustPass(memT+"Update", "recheck-on-every-path/recheckTxs", ir.Entry(up), ir.IsReturn, ir.CallMatcher("mempool.Mempool.recheckTxs"), nil, "every path through Update re-checks the offered account transactions")
+	for _, rc := range []struct{ call, size string }{{"mempool.Mempool.recheckSpecTxs", "mempool.Mempool.SpecGoodTxsSize(mem)"}, {"mempool.Mempool.recheckUtxoTxs", "mempool.Mempool.UTXOTxsSize(mem)"}} {
+		okAll := true
+		why := ""
+		for _, rt := range ir.Returns(up) {
+			found, _, tr := ir.FindPath(ir.PathQuery{From: ir.Entry(up), Target: func(in ssa.Instruction) bool { return in == ssa.Instruction(rt.Instr) }, Avoid: ir.CallMatcher(rc.call),
+				AvoidEdge: func(atoms []string) bool {
+					for _, a := range atoms {
+						if a == "le("+rc.size+",0)" || a == "eq("+rc.size+",0)" {
+							return true
+						}
+					}
+					return false
+				}})
+			if found {
+				okAll = false
+				why = fmt.Sprintf("return at %s reachable without it although the list may be non-empty, blocks %v", p.InstrPos(rt.Instr), tr)
+			}
+		}
+		r.Check("K2", memT+"Update/recheck-on-every-path/"+strings.TrimPrefix(rc.call, "mempool.Mempool."), p.Pos(up.Pos()), okAll, "skipped only when the list is empty: "+why)
+	}
 }
